@@ -269,15 +269,17 @@ func checkEOFCursor(p *Prog, r *Result, pkg *packages.Package, rule string) {
 				if !isBin || be.Op != token.ADD {
 					continue
 				}
-				c, isCall := stripConv(info, be.X).(*ast.CallExpr)
-				if !isCall || !isBuiltinCall(info, c, "len") || len(c.Args) != 1 {
-					continue
-				}
-				if bf := selectorField(info, c.Args[0]); bf == nil || bf.Name() != "bs" {
-					continue
-				}
-				if tv, has := info.Types[be.Y]; has && tv.Value != nil && tv.Value.ExactString() == "1" {
-					ok2 = true
+				for _, pair := range [][2]ast.Expr{{be.X, be.Y}, {be.Y, be.X}} {
+					c, isCall := stripConv(info, pair[0]).(*ast.CallExpr)
+					if !isCall || !isBuiltinCall(info, c, "len") || len(c.Args) != 1 {
+						continue
+					}
+					if bf := selectorField(info, c.Args[0]); bf == nil || bf.Name() != "bs" {
+						continue
+					}
+					if tv, has := info.Types[pair[1]]; has && tv.Value != nil && tv.Value.ExactString() == "1" {
+						ok2 = true
+					}
 				}
 			}
 			r.Check(ok2, rule, key, as.Pos(), "the block that stores the sentinel first stores p.bsp = len(p.bs) + 1, unconditionally",
